@@ -22,7 +22,16 @@ MAKERS = {
     "make-box": "(define (make-box init) ((lambda (b hits) (list (lambda () (set! hits (+ hits 1)) (list b hits)) (lambda (x) (set! b x) x))) init 0))",
     # rest parameter captured and replaced
     "make-bag": "(define (make-bag . items) (lambda (x) (set! items (cons x items)) items))",
+    # let*: one name bound twice, a closure made in between keeps the first binding; (getter-of-first setter-of-second getter-of-second)
+    "make-twin": "(define (make-twin a) (let* ((n a) (get1 (lambda () n)) (n (+ n 100)) (set2 (lambda (x) (set! n x) n)) (get2 (lambda () n))) (list get1 set2 get2)))",
+    # let*: a closure in an earlier clause mentions a name a later clause binds: it means the parameter, not the later binding
+    "make-late": "(define (make-late n) (let* ((outer (lambda () n)) (n (* n 2)) (bump (lambda (x) (set! n (+ n x)) n))) (list outer bump (lambda () n))))",
+    # let: all initialisers see the outer n; the body's closures share the new n
+    "make-par": "(define (make-par n) (let ((outer (lambda () n)) (n (* n 3))) (list outer (lambda (x) (set! n x) n) (lambda () n))))",
+    # the parameter is assigned by one closure and shadowed by an inner lambda parameter of the same name in another
+    "make-shadow": "(define (make-shadow n) (list (lambda () n) (lambda (x) (set! n x) n) (lambda (n) (set! n (+ n 1)) n)))",
 }
+TRIPLES = ("make-twin", "make-late", "make-par", "make-shadow")
 
 
 def parse(text):
@@ -68,18 +77,22 @@ class Hist:
         for name, kind in self.counters:
             if kind == "make-cell":
                 items.append([[S("car"), S(name)]])
+            if kind in TRIPLES and kind != "make-shadow":
+                items.append([[S("car"), S(name)]]); items.append([[S("caddr"), S(name)]])
+            if kind == "make-shadow":
+                items.append([[S("car"), S(name)]])
         return [S("vector")] + items
 
     def build(self, steps):
         r = self.rng
         F = self.forms
-        makers = r.sample(list(MAKERS), r.randint(2, 3))
+        makers = r.sample(list(MAKERS), r.randint(2, 4))
         for m in makers:
             F.append(parse(MAKERS[m]))
         for _ in range(r.randint(2, 5)):
             m = r.choice(makers)
             n = self.name("c")
-            arg = {"make-counter": [], "make-acc": [r.randint(0, 9)], "make-cell": [self.uniq()], "make-box": [self.uniq()], "make-bag": [1, 2][:r.randint(0, 2)]}[m]
+            arg = {"make-counter": [], "make-acc": [r.randint(0, 9)], "make-cell": [self.uniq()], "make-box": [self.uniq()], "make-bag": [1, 2][:r.randint(0, 2)]}.get(m, [r.randint(1, 9)])
             F.append([S("define"), S(n), [S(m)] + arg])
             self.counters.append((n, m))
         v1 = self.name("v"); F.append([S("define"), S(v1), [S("vector"), 1, 2, 3]]); self.vecs.append(v1)
@@ -107,6 +120,13 @@ class Hist:
                     F.append([S(name), r.randint(1, 5)])
                 elif kind == "make-bag":
                     F.append([S(name), self.uniq()])
+                elif kind in TRIPLES:
+                    k = r.random()
+                    if k < 0.5:
+                        F.append([[S("cadr"), S(name)], self.uniq()])
+                    elif k < 0.75 and kind == "make-shadow":
+                        F.append([[S("caddr"), S(name)], self.uniq()])
+                    F.append([S("list"), [[S("car"), S(name)]]] + ([[[S("caddr"), S(name)]]] if kind != "make-shadow" else []))
                 else:
                     if r.random() < 0.6:
                         F.append([[S("cadr"), S(name)], self.uniq()])
